@@ -1349,12 +1349,12 @@ impl CoreRuntime {
                 self.metadata.cycle_count = new_cycle;
                 if opcode == 0x01 {
                     let irq_src = self.timer.irq_source.clone();
-                    // If irq_source was lost, fall back to the delivered mask stack or live ISR bits.
+                    // Retire the source that was actually delivered (recorded at delivery time).
+                    // irq_source may since have been overwritten by a request that arrived while the
+                    // handler ran (e.g. the ON key) and must not decide which status bit is cleared.
                     let stack_mask = self.timer.delivered_masks.pop();
-                    let clear_mask = irq_src
-                        .as_deref()
-                        .and_then(src_mask_for_name)
-                        .or(stack_mask)
+                    let clear_mask = stack_mask
+                        .or_else(|| irq_src.as_deref().and_then(src_mask_for_name))
                         .or_else(|| {
                             self.memory
                                 .read_internal_byte(IMEM_ISR_OFFSET)
